@@ -71,6 +71,10 @@ void materialise(int id) {
         std::string chunk(65536, '\0');
         for (size_t i = 0; i < chunk.size(); i++) chunk[i] = (char)(i * 131 + 7);
         size_t left = n.size;
+        if (left > (64u << 20)) {  // huge files are sparse: the size is what Path must report, not the bytes on disk
+            if (ftruncate(fd, (off_t)left) != 0) { perror("ftruncate"); _exit(13); }
+            left = 0;
+        }
         while (left > 0) {
             size_t w = std::min(left, chunk.size());
             if (write(fd, chunk.data(), w) != (ssize_t)w) { perror("write"); _exit(13); }
@@ -261,6 +265,25 @@ void body(const Json& prog, const std::string& root) {
             if (stack.size() > 1) g_extra["nested_visitors"]++;
         } else if (o == "leave") {
             if (!stack.empty()) pop();
+        } else if (o == "reuse") {
+            // the same visitor object used again: restore() by hand, the working directory moves elsewhere, set()+visit() again.
+            // When it is destroyed it must bring back the directory that was current before this LAST visit.
+            if (stack.empty()) continue;
+            Frame& f = stack.back();
+            f.v->restore();
+            if (real_cwd() != f.before) sim::violation("cwd-not-restored", "DirectoryVisitor::restore() left the working directory at " + printable(real_cwd()) + ", expected " + printable(f.before));
+            int id = (int)(op.get("node", 0) % (int64_t)g_nodes.size());
+            while (!g_nodes[id].dir) id = g_nodes[id].parent;
+            int id2 = (int)((op.get("node", 0) / 7) % (int64_t)g_nodes.size());
+            while (!g_nodes[id2].dir) id2 = g_nodes[id2].parent;
+            Path::setWorkingDirectory(Path(g_nodes[id2].abs));      // "elsewhere"
+            if (real_cwd() != g_nodes[id2].abs) sim::violation("cwd-query", "Path::setWorkingDirectory did not change the working directory");
+            f.before = g_nodes[id2].abs;
+            std::string target = spelled(id, f.before, (int)op.get("variant", 0));
+            f.v->set(Path(target));
+            f.v->visit();
+            if (real_cwd() != g_nodes[id].abs) sim::violation("cwd-not-entered", "re-used DirectoryVisitor did not enter " + printable(target));
+            g_extra["visitors_reused"]++;
         }
     }
     while (!stack.empty()) pop();
@@ -291,6 +314,7 @@ const char* event_name(int k) {
 }
 bool owns(const std::string& prop, const std::string& c) { return prop == "C18" && c != "stepcap" && c != "deadlock"; }
 
+static bool g_gen_has_huge = false;
 static std::string gen_name(sim::Rng& g, int serial) {
     std::string base = "n" + std::to_string(serial);
     switch (g.below(10)) {
@@ -317,6 +341,11 @@ static Json gen_tree(sim::Rng& g, int depth, int maxdepth, int maxfan, bool thor
             static const int64_t sizes[] = {0, 1, 4095, 4096, 70000, 17, 300};
             int64_t s = sizes[g.below(7)];
             if (thorough && g.below(40) == 0) s = (1 << 20) + 3;
+            if (g.below(25) == 0) {  // sparse giants: totals that do not fit 31 / 32 bits
+                static const int64_t huge[] = {2147483647LL, 2147483648LL, 2147483653LL, 3221225479LL, 4294967297LL, 1500000000LL};
+                s = huge[g.below(6)];
+                g_gen_has_huge = true;
+            }
             kids.push(Json::object().set("n", kn).set("s", s));
         }
     }
@@ -337,7 +366,7 @@ void generate(sim::Rng& g, const std::string&, const std::string& tier, Json& pr
     for (int i = 0; i < n; i++) {
         Json op = Json::object();
         int r = (int)g.below(100);
-        const char* o = r < 40 ? "check" : r < 50 ? "missing" : r < 68 ? "visit" : r < 76 ? "visit_default" : r < 82 ? "visit_missing" : "leave";
+        const char* o = r < 38 ? "check" : r < 47 ? "missing" : r < 64 ? "visit" : r < 72 ? "visit_default" : r < 78 ? "visit_missing" : r < 86 ? "reuse" : "leave";
         op.set("op", o).set("node", (int)g.below(1000)).set("variant", (int)g.below(8));
         ops.push(op);
     }
